@@ -15,16 +15,22 @@ sh(f"rsync -a /verif/harness/ {base}/harness/")
 t=open(f"{base}/harness/Cargo.toml").read().replace('path = "/repo"', f'path = "{base}/repo"'); open(f"{base}/harness/Cargo.toml","w").write(t)
 c=open(f"{base}/harness/.cargo/config.toml").read().replace("/verif/.target", f"{base}/target"); open(f"{base}/harness/.cargo/config.toml","w").write(c)
 os.makedirs(f"{base}/verif", exist_ok=True); shutil.copy("/verif/known_findings.json", f"{base}/verif/")
+if os.path.exists("/verif/.target/fsshim.so"):
+    os.environ["LD_PRELOAD"]="/verif/.target/fsshim.so"
 env=dict(os.environ, CARGO_NET_OFFLINE="true", FXV_VERIF_DIR=f"{base}/verif", FXV_WORKERS=os.environ.get("FXV_WORKERS","8"))
 allchecks=[c['property_id'] for c in json.load(open('/verif/MANIFEST.json'))['checks']]
 for seed in seeds:
+    # which == "map": every seed argument is <seed>=<check>,<check>...
+    per_seed=None
+    if '=' in seed:
+        seed,per_seed=seed.split('=',1)
     home=seed.split('-')[0]
     # "rel": the seed's own check plus the checks of neighbouring properties (a change made for one
     # property often shows under another one's oracle)
     REL={"C01":["C19","C08","C15"],"C02":["C17","C05","C13"],"C03":["C15"],"C04":["C07","C15"],"C05":["C02","C12"],"C06":["C19","C11","C07"],
          "C07":["C16","C14"],"C08":["C15","C19","C01"],"C09":["C01"],"C10":["C14","C17"],"C11":["C16","C19"],"C12":["C05"],"C13":["C12","C02"],
          "C14":["C10","C07"],"C15":["C03","C08"],"C16":["C07","C14"],"C17":["C02","C05"],"C18":["C19","C15"],"C19":["C07","C08"],"C20":["C19","C10"]}
-    checks = allchecks if which=="all" else ([home] if which=="home" else ([home]+REL.get(home,[]) if which=="rel" else which.split(',')))
+    checks = per_seed.split(',') if per_seed else allchecks if which=="all" else ([home] if which=="home" else ([home]+REL.get(home,[]) if which=="rel" else which.split(',')))
     sh("git checkout -q -- . && git clean -fdq", cwd=f"{base}/repo")
     rc,out=sh(f"git apply /verif/seeded/{seed}/patch.diff", cwd=f"{base}/repo")
     res={"seed":seed,"apply_rc":rc,"checks":{}}
